@@ -1550,6 +1550,9 @@ dt_dadd_d(struct dt_d_s d, int n)
 		/* can't use short-cut return here, it'd upset the IPO/LTO */
 		goto out;
 	}
+	/* a calendar step may have left a day, count or week behind that
+	 * the month or year does not have, start from the cropped date */
+	d = dt_dfixup(d);
 	switch (d.typ) {
 	case DT_JDN:
 		d.daisy = __jdn_to_daisy(d.jdn);
@@ -1622,6 +1625,9 @@ dt_dadd_b(struct dt_d_s d, int n)
 		/* cacn't use short-cut return here, it'd upset the IPO/LTO */
 		goto out;
 	}
+	/* a calendar step may have left a day, count or week behind that
+	 * the month or year does not have, start from the cropped date */
+	d = dt_dfixup(d);
 	switch (d.typ) {
 	case DT_JDN:
 		d.daisy = __jdn_to_daisy(d.jdn);
@@ -1694,6 +1700,9 @@ dt_dadd_w(struct dt_d_s d, int n)
 		/* cacn't use short-cut return here, it'd upset the IPO/LTO */
 		goto out;
 	}
+	/* a calendar step may have left a day, count or week behind that
+	 * the month or year does not have, start from the cropped date */
+	d = dt_dfixup(d);
 	switch (d.typ) {
 	case DT_JDN:
 		d.daisy = __jdn_to_daisy(d.jdn);
